@@ -307,6 +307,9 @@ func genC06(r *core.Rand, run int) *MuxScenario {
 		sp.WSDuplex, sp.PingPong = true, false
 		sp.Handler.Steps = []HStep{{Op: "duplex"}}
 	}
+	if tr.proto == "http" && r.Chance(1, 5) {
+		sp.AcceptGzip = true
+	}
 	// an Accept header, possibly asking for the other representation than the
 	// request's own (only where no error rendering is expected: how an error is
 	// rendered under an Accept header is C05's subject)
